@@ -227,6 +227,11 @@ pub fn c09(tier: &str, seed: u64) -> i32 {
     let mut key_lens: Vec<u64> = (0..=if thorough { 4200 } else { 1100 }).collect();
     key_lens.extend((65536 - if thorough { 40 } else { 4 })..=65536);
     key_lens.extend([4095, 4096, 4097, 16383, 16384, 32768]);
+    // a key record of 128 KiB (three-byte size field); thorough: also a key of 2 MiB (four-byte length field)
+    key_lens.extend((131072 - if thorough { 40 } else { 14 })..=(131072 + if thorough { 8 } else { 2 }));
+    if thorough {
+        key_lens.extend((2097152 - 12)..=(2097152 + 2));
+    }
     let mut jobs: Vec<Vec<u8>> = Vec::new();
     let mut mk = |is_key: bool, lens: &[u64], per: usize| {
         for c in lens.chunks(per) {
@@ -274,7 +279,7 @@ pub fn c09(tier: &str, seed: u64) -> i32 {
     let total = ctx.run.get("arith_value_lengths") + ctx.run.get("arith_key_evaluations") + evals as i64;
     ctx.run.set("evaluations", J::Int(total));
     ctx.run.set("distinct_nontrivial", J::Int(ctx.run.get("arith_tight_fits") + lens_done as i64));
-    ctx.run.set("rule", J::s("(a) complete enumeration of the slot arithmetic through the layout-probe hook (the crate's own encoded_piece_size + roundup): every value length 0..=2^24 and every key length 0..=2^16 x every ordered pair of (value offset, next offset) from the set of all vu64 width boundaries +-8 for the raw and the /8 encoding; the chosen slot must be a legal class, a multiple of 8 and >= the independently computed exact record length (own vu64 length function, size field computed from the chosen slot). (b) end-to-end on the real write path for every length of the listed ranges: sentinel, X(L), sentinel, X overwritten with L+1, L-1, L (values) / deleted and re-inserted one byte longer and shorter (keys); all three entries read back byte for byte after every step; after close the files must tile without overlap with zero padding (independent decoder) and re-open. non-trivial = arithmetic cases in which the record fills its slot to within 7 bytes + end-to-end lengths"));
+    ctx.run.set("rule", J::s("(a) complete enumeration of the slot arithmetic through the layout-probe hook (the crate's own encoded_piece_size + roundup): every value length 0..=2^24 and every key length 0..=2^16 (plus 273 lengths each around 2^17, 2^20, 2^21, 2^24) x every ordered pair of (value offset, next offset) from the set of all vu64 width boundaries +-8 for the raw and the /8 encoding; the chosen slot must be a legal class, a multiple of 8 and >= the independently computed exact record length (own vu64 length function, size field computed from the chosen slot). (b) end-to-end on the real write path for every length of the listed ranges: sentinel, X(L), sentinel, X overwritten with L+1, L-1, L (values) / deleted and re-inserted one byte longer and shorter (keys); all three entries read back byte for byte after every step; after close the files must tile without overlap with zero padding (independent decoder) and re-open. non-trivial = arithmetic cases in which the record fills its slot to within 7 bytes + end-to-end lengths"));
     ctx.run.set("end_to_end", J::obj(vec![("value_lengths", J::Int(val_lens.len() as i64)), ("key_lengths", J::Int(key_lens.len() as i64)), ("checks", J::Int(evals as i64))]));
     ctx.run.sample(J::s("value length 16777216: slot chosen by the crate vs exact record length 1+4+16777216"));
     ctx.run.sample(J::s("key length 65536 x value offset 2^21-8 x next offset 8*2^14"));
@@ -1040,22 +1045,39 @@ pub fn replay_generic(kind: u8, case: &[u8]) -> i32 {
 
 const C13_TABLES: [u64; 4] = [8, 1, 4, 1024];
 
-fn sample_image(kt: KtId, dir: &std::path::Path, empty: bool, buckets: u64) -> Result<Image, String> {
+fn sample_image(kt: KtId, dir: &std::path::Path, empty: bool, buckets: u64, flushed_copy: bool) -> Result<Image, String> {
     clear_dir(dir);
     let k = crate::alphabet::int_key(kt, 5);
-    let r: Result<(), String> = crate::with_kt!(kt, T => {
+    let r: Result<Option<Image>, String> = crate::with_kt!(kt, T => {
         match open_map::<T>(dir, MAP_NAME, &Params::buckets(buckets)) {
             Out::Ok((db, mut m)) => {
                 let r = if empty { Out::Ok(()) } else { guard(|| m.put(&k[..], b"payload")) };
+                // the files as they are after a flush, read while the handles are alive (what a copy of the
+                // directory taken at that moment holds), instead of the files after a clean close
+                let mut snap = None;
+                let mut fl = Out::Ok(());
+                if flushed_copy {
+                    fl = guard(|| m.flush());
+                    snap = Image::read(dir, MAP_NAME).ok();
+                }
                 drop(m);
                 drop(db);
-                if r == Out::Ok(()) { Ok(()) } else { Err(format!("put {}", r.failed().unwrap_or_default())) }
+                if r != Out::Ok(()) {
+                    Err(format!("put {}", r.failed().unwrap_or_default()))
+                } else if fl != Out::Ok(()) {
+                    Err(format!("flush {}", fl.failed().unwrap_or_default()))
+                } else {
+                    Ok(snap)
+                }
             }
             o => Err(format!("open {}", o.failed().unwrap_or_default())),
         }
     });
-    r?;
-    Image::read(dir, MAP_NAME).map_err(|e| e.to_string())
+    match r? {
+        Some(img) => Ok(img),
+        None if flushed_copy => Err("files unreadable after flush".into()),
+        None => Image::read(dir, MAP_NAME).map_err(|e| e.to_string()),
+    }
 }
 
 /// try to open `img` as key type `kt`; Ok(None) = rejected, Ok(Some(what)) = a lookup answered Ok
@@ -1104,6 +1126,7 @@ fn c13_job(payload: &[u8], io: &mut WorkerIo) -> Vec<u8> {
     let mode = mode_raw & 1;
     let empty = mode_raw & 2 != 0;
     let buckets = C13_TABLES[(mode_raw >> 2) as usize & 3];
+    let flushed_copy = mode_raw & 16 != 0;
     let a = KtId::from_u8(r.u8());
     let only_file = r.u8(); // 255 all
     let only_byte = r.u32(); // u32::MAX all
@@ -1112,7 +1135,7 @@ fn c13_job(payload: &[u8], io: &mut WorkerIo) -> Vec<u8> {
     let work = scratch.fresh("w");
     let mut out = Buf::new();
     let mut evals = 0u64;
-    let img_a = match sample_image(a, &dir, empty, buckets) {
+    let img_a = match sample_image(a, &dir, empty, buckets, flushed_copy) {
         Ok(i) => i,
         Err(e) => {
             result_bad(&mut out, "setup", &format!("cannot create a {} map: {e}", a.name()), 0, payload);
@@ -1125,7 +1148,7 @@ fn c13_job(payload: &[u8], io: &mut WorkerIo) -> Vec<u8> {
         // only_file = the other type, only_byte = sub case (0: A files opened as B; 1..3: A map with B's htx/key/val)
         let b = KtId::from_u8(only_file);
         let sub = only_byte as usize;
-        let img_b = match sample_image(b, &dir, empty, buckets) {
+        let img_b = match sample_image(b, &dir, empty, buckets, flushed_copy) {
             Ok(i) => i,
             Err(e) => {
                 result_bad(&mut out, "setup", &format!("cannot create a {} map: {e}", b.name()), evals, payload);
@@ -1189,6 +1212,9 @@ fn c13_job(payload: &[u8], io: &mut WorkerIo) -> Vec<u8> {
                         1 => &mut mutated.key,
                         _ => &mut mutated.val,
                     };
+                    if pos >= fbytes.len() {
+                        continue;
+                    }
                     fbytes[pos] = fbytes[pos].wrapping_add(delta);
                     let newb = fbytes[pos];
                     match try_open_as(a, &mutated, &work) {
@@ -1218,7 +1244,7 @@ pub fn c13(tier: &str, seed: u64) -> i32 {
     ctx.pool.reinit(vec![]);
     ctx.pool.watchdog = std::time::Duration::from_secs(60);
     let mut jobs: Vec<Vec<u8>> = Vec::new();
-    for (geo, empty) in [(0u8, 0u8), (0, 2), (1, 0), (1, 2), (2, 0), (2, 2), (3, 0), (3, 2)] {
+    for (geo, empty) in [(0u8, 0u8), (0, 2), (1, 0), (1, 2), (2, 0), (2, 2), (3, 0), (3, 2), (0, 18), (1, 18), (2, 18), (3, 18)] {
         let empty = empty | (geo << 2);
         for a in KtId::ALL {
             for bt in KtId::ALL {
@@ -1272,7 +1298,7 @@ pub fn c13(tier: &str, seed: u64) -> i32 {
     eprintln!("[C13] open attempts: {evals}");
     ctx.run.set("evaluations", J::Int(evals as i64));
     ctx.run.set("distinct_nontrivial", J::Int(evals as i64));
-    ctx.run.set("rule", J::s("complete enumeration: (1) every ordered pair of the five key types: files created for A opened as B, and a directory of A files in which one of .htx/.key/.val comes from a B map opened as A; (2) per key type and per file every single-byte change (255 values) of each of the 16 leading signature bytes (5 x 3 x 16 x 255 = 61200 per table size and fill state); both families on tables of 8, 1, 4 and 1024 buckets (the table file is 137 bytes long with one bucket), each once on maps holding one entry and once on maps that were created and never updated (files of exactly header size). each attempt runs under catch_unwind: the open must fail (Err or panic) or at least no len/get/includes_key/iteration may answer Ok; afterwards the three files must be byte-identical. every case is distinct"));
+    ctx.run.set("rule", J::s("complete enumeration: (1) every ordered pair of the five key types: files created for A opened as B, and a directory of A files in which one of .htx/.key/.val comes from a B map opened as A; (2) per key type and per file every single-byte change (255 values) of each of the 16 leading signature bytes (5 x 3 x 16 x 255 = 61200 per table size and fill state); both families on tables of 8, 1, 4 and 1024 buckets (the table file is 137 bytes long with one bucket), each on maps holding one entry, on maps that were created and never updated (files of exactly header size) and on the files of a never-updated map as they are after flush() while the handles are still alive. each attempt runs under catch_unwind: the open must fail (Err or panic) or at least no len/get/includes_key/iteration may answer Ok; afterwards the three files must be byte-identical. every case is distinct"));
     ctx.run.sample(J::s("string files opened as bytes"));
     ctx.run.sample(J::s("u64 map whose .val comes from an i64 map, opened as u64"));
     ctx.run.sample(J::s("bytes map, byte 6 of .key changed from 'K' to 'L'"));
